@@ -355,6 +355,8 @@ def run_config(cfg: dict, tid: int, max_levels: int = 400, want_residual: bool =
     pf_series = None if kind == "ideal" else (np.full(len(time), cfg["pf"]) if sched is None else np.asarray(sched, dtype=float))
     events, raw = level_events(kind, fp, time, np.asarray(obj.pseudopressure, dtype=float), pf_series, tid, flags.bad,
                                max_levels, want_residual)
+    if cfg.get("f32table"):
+        events[0]["f32table"] = True
     raw["cfg"] = cfg
     return events, raw, obj, fp, tab, time, sched
 
